@@ -205,9 +205,10 @@ class _Gen(spec.TermGen):
             return ["i", r.randint(0, 2)]
         if kind == "nid":
             return r.choice([["s", "id0"], ["i", 3], ["t", [["s", "n"], ["i", 1]]]])
-        if kind == "kw" and r.random() < 0.25:
+        if kind == "kw" and r.random() < 0.3:
             keys = r.sample(["a", "b", "c"], r.randint(1, 2))
-            return ["d", [[k, self.term(depth + 1)] for k in keys]]     # deprecated dict
+            # deprecated: a plain dict, or a read-only view of one
+            return [r.choice(["d", "d", "mp"]), [[k, self.term(depth + 1)] for k in keys]]
         if kind == "op" and r.random() < 0.15:
             return ["s", r.choice(["eq", "ne", "le", "lt", "ge", "gt"])]   # deprecated names
         if kind == "sc" and r.random() < 0.15:
@@ -298,12 +299,12 @@ def normalise_term(t):
             fs[1] = ["s", names.get(fs[1][1], fs[1][1])]
         if t[1] == "CommonSubexpression" and len(fs) == 3 and fs[2] == ["none"]:
             fs[2] = ["s", "pymbolic_eval"]
-        if t[1] == "CallWithKwargs" and len(fs) == 3 and fs[2][0] == "d":
+        if t[1] == "CallWithKwargs" and len(fs) == 3 and fs[2][0] in ("d", "mp"):
             fs[2] = ["im", fs[2][1]]
         return ["n", t[1], fs]
     if k == "t":
         return ["t", [normalise_term(x) for x in t[1]]]
-    if k in ("im", "d"):
+    if k in ("im", "d", "mp"):
         return [k, [[kk, normalise_term(v)] for kk, v in t[1]]]
     return t
 
@@ -472,7 +473,8 @@ def generate(seed, tier):
         if k == "map":
             return ["map", r.choice(["identity", "dependency", "str", "repr", "evaluate",
                                      "substitute", "flatten", "force", "wrap_in_cse",
-                                     "make_cse", "operators", "flattened", "tag_cse",
+                                     "make_cse", "operators", "inplace_operators", "flattened",
+                                     "tag_cse",
                                      "persistent_hash", "nodecount"]), r.choice(names)]
         if k in ("rebind", "delete"):
             return [k, r.choice(names), r.randint(0, 3),
@@ -914,6 +916,16 @@ def execute(scenario, open_sigs):
             elif kind == "operators":
                 (o + 1, 2 * o, o - o, -o, o / 3, o ** 2, o[0], o(1, k=2), o.attr("a"),
                  o.eq(o), o.not_(), abs(o))
+            elif kind == "inplace_operators":
+                # augmented assignment on another reference to the same node
+                for stmt in ("t += 1", "t += o", "t -= 2", "t *= 3", "t *= o", "t /= 2",
+                             "t //= 2", "t %= 5", "t **= 2", "t <<= 1", "t >>= 1", "t |= 1",
+                             "t &= 3", "t ^= 1"):
+                    ns = {"t": o, "o": o}
+                    try:
+                        exec(stmt, ns)
+                    except Exception:  # noqa: BLE001
+                        pass
             elif kind == "flattened":
                 p.flattened_sum([o, o + 1, 0])
                 p.flattened_product([o, 1, o * 2])
